@@ -1334,7 +1334,13 @@ class _FileMover:
     def __init__(self):
         """Initialize a new FileMover to track file operations."""
         self.past_renames = []
+        self.past_chmods = []
         self.pending_deletions = []
+
+    def chmod(self, path, old_mode, new_mode):
+        """Change the mode of a file in place, remembering the old mode."""
+        osutils.chmod_if_possible(path, new_mode)
+        self.past_chmods.append((path, old_mode))
 
     def rename(self, from_, to):
         """Rename a file from one path to another."""
@@ -1359,14 +1365,22 @@ class _FileMover:
         self.pending_deletions.append(to)
 
     def rollback(self):
-        """Reverse all renames that have been performed."""
-        for from_, to in reversed(self.past_renames):
-            try:
-                os.rename(to, from_)
-            except OSError as e:
-                raise TransformRenameFailed(to, from_, str(e), e.errno) from e
+        """Reverse all mode changes and renames that have been performed."""
+        try:
+            # Modes are only changed on files that are already at their final
+            # path, and no later rename moves such a file, so they can all be
+            # restored before the renames are undone.
+            for path, mode in reversed(self.past_chmods):
+                osutils.chmod_if_possible(path, mode)
+        finally:
+            for from_, to in reversed(self.past_renames):
+                try:
+                    os.rename(to, from_)
+                except OSError as e:
+                    raise TransformRenameFailed(to, from_, str(e), e.errno) from e
         # after rollback, don't reuse _FileMover
         self.past_renames = None
+        self.past_chmods = None
         self.pending_deletions = None
 
     def apply_deletions(self):
@@ -1375,6 +1389,7 @@ class _FileMover:
             delete_any(path)
         # after apply_deletions, don't reuse _FileMover
         self.past_renames = None
+        self.past_chmods = None
         self.pending_deletions = None
 
 
